@@ -307,4 +307,70 @@ theorem fresh_densify_object (cfg : Cfg) (n : Nat) (c a : Bool) (s : List Inter)
       | .ok (s', _) => Except.ok s'
       | .error e => .error e) = runPrim cfg (.densify n (.lookup []) c a) s := fresh_densify_object' cfg n c a s
 
+/-! ## Phase 3 -/
+
+/-! ### sets of actions without the built-in reflexivity -/
+
+/-- `pyEq_refl` taken out of `distinctB`: for well-formed values (unique dict keys, no SparseDense) an action list is a set
+as soon as its members are pairwise different -/
+theorem distinct_of_pairwise_ne (as : List Val) (hwf : ∀ a ∈ as, wfNoLazy a = true) (h : pairwiseNeB as = true) :
+    Distinct as := distinct_of_pairwiseNe as hwf h
+
+example : Distinct [catA, catB] :=
+  distinct_of_pairwise_ne _ (fun a ha => List.all_eq_true.mp (by decide +kernel : [catA, catB].all wfNoLazy = true) a ha) (by decide +kernel)
+
+/-! ### more stages of `chainHypB` discharged / shown necessary -/
+
+/-- Noise with an injective noiser (affine, slope ≠ 0) keeps a set of numeric actions a set, whatever the generator state -/
+theorem noise_affine_nums_distinct (m b : Rat) (hm : m ≠ 0) (orc o' : List Rat) (xs : List Rat) (out : List Val)
+    (h : noisesList (some (.affine m b)) orc (xs.map Val.num) = .ok (o', out)) (hd : Distinct (xs.map Val.num)) :
+    Distinct out := noise_affine_nums_distinct' m b hm orc o' xs out h hd
+
+example : (match noisesList (some (.affine 2 1)) [] ([1, 2, 3].map Val.num) with
+            | .ok (_, out) => Val.sameL out [.num 3, .num 5, .num 7]
+            | .error _ => false) = true
+    ∧ distinctB ([1, 2, 3].map Val.num) = true := by decide +kernel
+
+/-- Densify(hashing) genuinely fails when crc32 sends two keys to one slot: the two sparse actions become the same dense
+row and the second earns the first one's reward — the injectivity hypothesis cannot be dropped for hashing -/
+theorem densify_hashing_counterexample :
+    keepsAligned Cfg.fixed [.densify 4 (.hashing [("a", 1), ("b", 1)]) false true] wHashCollision = false := by decide +kernel
+example : keepsAligned Cfg.fixed [.densify 4 (.hashing [("a", 1), ("b", 2)]) false true] wHashCollision = true := by decide +kernel
+
+/- OPEN (not proved, therefore not stated as a theorem):
+   theorem densify_lookup_injective : for sparse rows d1 d2 with unique keys and no stored zero, a look-up table that is injective on
+   keys d1 ∪ keys d2 with all slots < n:  pyEq (makeDense d1) (makeDense d2) = pyEq (.dict d1) (.dict d2).
+   Proved so far about the table only: `densify_prior_monotone`, `densify_state_is_keys`, `fresh_densify_object`; what is missing is
+   the passage from distinct slots to distinct SparseDense rows (pyEqZ / zerosMatch against `expand`).  The hypothesis stays a
+   per-case evaluated one (`distinctB` of the densified actions) and is compared with the real filter on every case. -/
+
+/-! ### batched rewards: `Batch.Callable` -/
+
+/-- member `k` of a batched call is member `k`'s function applied to member `k`'s action -/
+theorem batch_call_member (fs : List Rew) (as : List Val) (k : Nat) (f : Rew) (a : Val)
+    (hf : fs[k]? = some f) (ha : as[k]? = some a) : (batchCall fs as)[k]? = some (callRew f a) :=
+  batchCall_getElem? fs as k f a hf ha
+
+example : obsEq (batchCall [.binary (.num 1) 1, .l1 2] [.num 1, .num 5]) [.ok 1, .ok (-3)] = true := by decide +kernel
+
+/-- the batched reward (or feedback) function of a batch, asked for the i-th action of every member, answers member by member
+with what each member's own function says about its own i-th action -/
+theorem batch_obs_member (get : Inter → Option Rew) (batch : List Inter) (i : Nat) (col : List (Except Err Rat))
+    (h : batchObs get batch i = some col) (k : Nat) (I : Inter) (hk : batch[k]? = some I) :
+    ∃ r as a, get I = some r ∧ I.actions = some as ∧ as[i]? = some a ∧ col[k]? = some (callRew r a) :=
+  batchObs_member' get batch i col h k I hk
+
+example : optObsEq (batchObs (·.rewards) (wRekey ++ wRekey) 1) (some [.ok 1, .ok 1]) = true := by decide +kernel
+
+/-- BatchSafe: a representation filter on a batched stream is the filter on the un-batched stream, batched again — batching and
+un-batching commute with every representation change (so, with `batch_obs_member` and `chain_aligned`, member k's function is
+still applied to member k's action after any chain) -/
+theorem batchsafe_commutes (cfg : Cfg) (st : Step) (s : List Inter) (k : Nat) (ks : List Nat)
+    (hb : ∀ n, st ≠ .batch n) (hu : st ≠ .unbatch) :
+    runStep cfg st { stream := s, sizes := some (k :: ks) } =
+      (match runPrims cfg (expandStep st) s with
+       | .error e => .error e
+       | .ok s' => .ok { stream := s', sizes := some (chunkSizes k s'.length s'.length) }) :=
+  batchsafe_commutes' cfg st s k ks hb hu
+
 end Coba.C10
